@@ -10,6 +10,11 @@ import (
 	d "git.sr.ht/~adrian-blx/psa-dhcp/lib/server/ipdb/duid"
 )
 
+// internalDuidPrefix marks duids derived from a plain hwaddr.
+// 0x0003 = DUID-LL
+// 0x0000 = Reserved/invalid hw type -> this is internal.
+var internalDuidPrefix = []byte{0x00, 0x03, 0x00, 0x00}
+
 // arpVerify returns a function which can be used to arp-ping an IP.
 // The IP is considered to be free if we receive no reply or if it matches the given hwaddr.
 func (sx *server) arpVerify(hw net.HardwareAddr) func(context.Context, net.IP) bool {
@@ -44,8 +49,9 @@ func (sx *server) getDuid(hwaddr net.HardwareAddr, cid []byte) d.Duid {
 		// due to a static assignment, so we use the internal version.
 		return sduid
 	}
-	if len(cid) < 4 {
-		// Client sent us nonsense. Our own internal duid is better than this.
+	if len(cid) < 4 || bytes.HasPrefix(cid, internalDuidPrefix) {
+		// Client sent us nonsense (or something which would collide with the internal
+		// duid of another hwaddr). Our own internal duid is better than this.
 		return sduid
 	}
 	// No client override and sane duid -> use it.
@@ -54,7 +60,5 @@ func (sx *server) getDuid(hwaddr net.HardwareAddr, cid []byte) d.Duid {
 
 // duidFromHwAddr constructs a duid for internal use from a plain hwaddr.
 func duidFromHwAddr(hw net.HardwareAddr) d.Duid {
-	// 0x0003 = DUID-LL
-	// 0x0000 = Reserved/invalid hw type -> this is internal.
-	return d.Duid(append([]byte{0x00, 0x03, 0x00, 0x00}, hw...))
+	return d.Duid(append(append([]byte{}, internalDuidPrefix...), hw...))
 }
